@@ -68,13 +68,53 @@ def generate(R: Draw, tier: str) -> dict:
     lib, rs = schemas.get(sref)
     g = docgen(rs)
     doc = g.doc(R, R.weighted([("small", 5), ("medium", 2)]))
-    focus = _exclusion_focus(R, g, rs, doc) if R.bool(0.35) else None
+    focus = None
+    if R.bool(0.35):
+        focus = _exclusion_focus(R, g, rs, doc)
+    elif R.bool(0.2):
+        focus = _removal_focus(R, g, rs, doc)
     if focus is not None:
         doc, op = focus
         return {"schema": sref, "doc": doc, "op": op}
     node = P.build(lib, doc)
     op = go.gen_op(R, g, lib, node, KINDS, steer=0.8)
     return {"schema": sref, "doc": doc, "op": op}
+
+
+def _removal_focus(R: Draw, g, rs, doc: dict):  # noqa: ANN001, ANN202
+    """Two or three consecutive inline nodes of one textblock get marks of the SAME type with DIFFERENT attributes
+    (link x | link y), and the mark type / all marks are removed over a range covering them."""
+    from ..gen import mutate as mu
+    from ..ref import resolve as RR
+
+    with_attrs = [m for m in rs.mark_names if rs.marks[m].get("attrs")]
+    if not with_attrs:
+        return None
+    m = R.choice(with_attrs)
+    blocks = [p for p in mu.paths(doc) if rs.textblock.get(mu.get_at(doc, p)["t"]) and rs.allows_mark(mu.get_at(doc, p)["t"], m)]
+    if not blocks:
+        return None
+    path = R.choice(blocks)
+    tb = mu.get_at(doc, path)
+    pieces = []
+    for i in range(R.int(2, 3)):
+        marks = rm.ref_add(rs, g.mark(R, m), g.mark_set(R, tb["t"], 0.3))
+        pieces.append(P.mk("text", {}, None, marks, R.choice(["xx", "y", "zzz"])))
+    if "text" not in rx.first(rs.content[tb["t"]]):
+        return None
+    new_tb = {**tb, "c": mu.normalize_children(list(tb["c"][: R.int(0, len(tb["c"]))]) + pieces)}
+    doc2 = mu.replace_at(doc, path, lambda n: new_tb) if path else new_tb
+    if V.node_problems(rs, doc2):
+        return None
+    rdoc = RR.N(doc2, rs)
+    spans = [(s_, k.size) for k, s_, _par, _i, _d in RR.all_nodes(rdoc) if k.p is new_tb]
+    if not spans:
+        return None
+    start, size = spans[0]
+    a = R.int(start + 1, start + size - 2)
+    b = R.int(a, start + size - 1) if R.bool(0.3) else start + size - 1
+    how = R.weighted([("type", 5), ("all", 3), ("mark", 2)])
+    return doc2, {"op": "remove_mark", "from": a if R.bool(0.5) else start + 1, "to": b, "mark": g.mark(R, m) if how == "mark" else None, "type": m if how == "type" else None}
 
 
 def _exclusion_focus(R: Draw, g, rs, doc: dict):  # noqa: ANN001, ANN202
@@ -85,7 +125,10 @@ def _exclusion_focus(R: Draw, g, rs, doc: dict):  # noqa: ANN001, ANN202
     names = rs.mark_names
     if len(names) < 2:
         return None
-    m = R.choice(names)
+    cands = [x for x in names if any(y != x and (rs.excludes(x, y) or rs.excludes(y, x)) for y in names)]
+    if not cands:
+        return None
+    m = R.choice(cands)
     displaced = [a for a in names if a != m and rs.excludes(m, a)]
     refusing = [b for b in names if b != m and rs.excludes(b, m) and not rs.excludes(m, b)]
     if not displaced and not refusing:
@@ -100,8 +143,14 @@ def _exclusion_focus(R: Draw, g, rs, doc: dict):  # noqa: ANN001, ANN202
         want.append(R.choice(displaced))
     if refusing and R.bool(0.6 if want else 1.0):
         want.append(R.choice(refusing))
+    if R.bool(0.5):
+        # plus a bystander mark that has nothing to do with M (it must survive, and must not stop the algorithm
+        # from looking at the marks after it)
+        others = [x for x in names if x != m and x not in want and not rs.excludes(m, x) and not rs.excludes(x, m)]
+        if others:
+            want.append(R.choice(others))
     cur: list = []
-    for name in want:
+    for name in R.shuffle(want):
         if rs.allows_mark(parent["t"], name):
             cur = rm.ref_add(rs, g.mark(R, name), cur)
     if not cur:
